@@ -496,7 +496,56 @@ def run_vpd83_types(dtype, pos):
     return out
 
 
+def run_designator_table_history(value):
+    """the public DESIGNATOR table edited the documented way (an alias name added for a designator type, the library's own name removed
+    and added back - its value unchanged throughout): a Device Identification page decodes as before"""
+    Inq = lib("Inquiry")
+    table = Inq.DESIGNATOR
+    own = next((k for k in table.keys if getattr(table, k) == value), None)
+    if own is None:
+        return []
+
+    def dd(t, payload, codeset=1):
+        return bytes([codeset, t, 0, len(payload)]) + payload
+    page = dd(4, bytes([0, 0, 0, 7])) + dd(5, bytes([0, 0, 0, 9])) + dd(6, bytes([0, 0, 0x0A, 0x0B])) + dd(3, bytes.fromhex("5000c50012345678"))
+    buf = bytes([0, 0x83]) + len(page).to_bytes(2, "big") + page
+    before = _freeze(Inq.unmarshall_datain(bytearray(buf), evpd=1))
+    out = []
+    try:
+        table.add("VERIF_ALIAS_%d" % value, value)
+        step1 = _freeze(Inq.unmarshall_datain(bytearray(buf), evpd=1))
+        table.remove(own)
+        table.add(own, value)
+        step2 = _freeze(Inq.unmarshall_datain(bytearray(buf), evpd=1))
+        for label, got in (("an alias was added", step1), ("the library's own name was removed and added back", step2)):
+            if got != before:
+                out.append(("designator_table_history/%d" % value, "after %s for designator type %d (values unchanged) a VPD 83h page decodes differently" % (label, value)))
+                break
+    except Exception as e:   # noqa: BLE001
+        out.append(("designator_table_history/raises", "designator type %d: %s: %s" % (value, type(e).__name__, e)))
+    finally:
+        try:
+            table.remove("VERIF_ALIAS_%d" % value)
+        except Exception:   # noqa: BLE001
+            pass
+        if own not in table.keys:
+            table.add(own, value)
+    return out
+
+
+def _freeze(x):
+    if isinstance(x, dict):
+        return tuple(sorted((str(k), _freeze(v)) for k, v in x.items()))
+    if isinstance(x, (list, tuple)):
+        return tuple(_freeze(v) for v in x)
+    if isinstance(x, (bytes, bytearray)):
+        return bytes(x)
+    return x
+
+
 def run_case(case, obs=None):
+    if case[0] == "designator_table_history":
+        return run_designator_table_history(case[1])
     if case[0] == "vpd83_types":
         return run_vpd83_types(case[1], case[2])
     if case[0] == "vpd_short":
@@ -857,6 +906,17 @@ def run_partition(part, tier, seed):
         acc.evaluations += len(others)
         return acc
     if part[0] == "vpd_short":
+        for value in range(0, 10):
+            case = ["designator_table_history", value]
+            acc.case(case, nontrivial=True, key=repr(case))
+            try:
+                v = run_case(case)
+            except Exception:
+                import traceback
+                v = [("harness_error/designator_table_history", traceback.format_exc()[-600:])]
+            for kk, w in v:
+                acc.violation(kk, w, case)
+            acc.outcome((repr(case), tuple(x for x, _ in v)))
         for dtype in range(0x0A, 0x10):
             for pos in range(4):
                 case = ["vpd83_types", dtype, pos]
